@@ -13,29 +13,37 @@ from .. import gen
 
 TRANSLATOR = os.path.join(ROOT, 'harness', 'translate', 'py2gallina_c08.py')
 GEN_FILE = 'LocalGrid1DGen.v'
-GEN_CHAIN = ['Base/PyNumMath.v', 'Gen/LocalGrid1DGen.v', 'Proofs/GenLocalGridsEq.v', 'Props/C08gen.v']
+TRANSLATOR_AREA = os.path.join(ROOT, 'harness', 'translate', 'py2gallina_c08_area.py')
+GEN_FILE_AREA = 'Grid1dAreaGen.v'
+GEN_CHAIN = ['Base/PyNumMath.v', 'Gen/LocalGrid1DGen.v', 'Gen/Grid1dAreaGen.v', 'Proofs/GenLocalGridsEq.v', 'Proofs/GenGrid1dAreaEq.v',
+             'Props/C08gen.v']
 EXTRA_PROPS = ('C08gen',)
 ASSUMPTION = gen.ASSUMPTION + ('; C08 front end (py2gallina_c08.py): unannotated parameters `level`, `index` of the 1D grid classes declared int, '
-                               'math.isclose read as |x-y| <= 1e-9*max(|x|,|y|) on exact rationals (coq/Base/PyNumMath.v), int(bool) = 0/1; the '
-                               'attribute values written by Grid1d.set_current_area (attribute writes are outside the translated subset) are '
-                               'transcribed by hand (eq_np, eq_borders, spacing of Model/LocalGrids.v) and compared with the attributes of the '
-                               'grid objects on every run; translated: TrapezoidalGrid1D.level_to_num_points_1d / weight_composite_trapezoidal / '
-                               'get_1d_weight / get_1D_level_weights, ClenshawCurtisGrid1D.level_to_num_points_1d, GaussGrid1D.level_to_num_points_1d; '
-                               'not translated: numpy slicing with steps (Simpson), np.linspace, math.cos (Clenshaw-Curtis weights), LAPACK/fmin (Leja), '
-                               'LejaGrid1D.level_to_num_points_1d (variable first assigned in both branches of an if)')
+                               'math.isclose read as |x-y| <= 1e-9*max(|x|,|y|) on exact rationals (coq/Base/PyNumMath.v), int(bool) = 0/1; '
+                               'translated: TrapezoidalGrid1D.level_to_num_points_1d / weight_composite_trapezoidal / get_1d_weight / '
+                               'get_1D_level_weights, ClenshawCurtisGrid1D / GaussGrid1D / LejaGrid1D.level_to_num_points_1d; the border bookkeeping '
+                               'Grid1d.set_current_area (attribute writes) is translated by its own front end py2gallina_c08_area.py (record updates; '
+                               'the abstract method level_to_num_points_1d of the subclass is a parameter that sees the record; the array construction '
+                               'at the end of the method is accepted by exact text and not translated); not translated: numpy slicing with steps '
+                               '(Simpson), np.linspace, math.cos (Clenshaw-Curtis weights), LAPACK / fmin (Leja weights and points)')
 
 
 def regenerate(chk):
     with open(os.path.join(ROOT, '.buildlock'), 'w') as lk:
         fcntl.flock(lk, fcntl.LOCK_EX)
         p = subprocess.run([sys.executable, TRANSLATOR], capture_output=True, text=True)
-    msg = '\n'.join(l for l in p.stderr.splitlines() if 'conda' not in l).strip()
+        p2 = subprocess.run([sys.executable, TRANSLATOR_AREA], capture_output=True, text=True)
+    msg = '\n'.join(l for l in (p.stderr + p2.stderr).splitlines() if 'conda' not in l).strip()
+    chk.checker_cmds.append('/venv/bin/python harness/translate/py2gallina_c08_area.py  (regenerates coq/Gen/%s: Grid1d.set_current_area)' % GEN_FILE_AREA)
     chk.checker_cmds.append('/venv/bin/python harness/translate/py2gallina_c08.py  (regenerates coq/Gen/%s from sparseSpACE/Grid.py)' % GEN_FILE)
-    info = dict(rc=p.returncode, message=msg, target='local1d')
+    info = dict(rc=(p.returncode or p2.returncode), message=msg, target='local1d + grid1d-area')
     try:
         src = open(os.path.join(COQ, 'Gen', GEN_FILE)).read()
         info['generated_sha256'] = hashlib.sha256(src.encode()).hexdigest()
         info['translated'] = re.findall(r'^\(\* (\S+:\d+-\d+)  (\S+) \*\)$', src, re.M)
+        src2 = open(os.path.join(COQ, 'Gen', GEN_FILE_AREA)).read()
+        info['translated'] += re.findall(r'^\(\* (\S+:\d+-\d+)  (Grid1d\.\S+)', src2, re.M)
+        info['generated_sha256_area'] = hashlib.sha256(src2.encode()).hexdigest()
     except OSError:
         pass
     chk.extra['source_derived_model'] = info
